@@ -36,6 +36,16 @@ def same_bv(a, b):
     return isinstance(a, BV) and isinstance(b, BV) and a == b
 
 
+def _holds_bv(v):
+    if isinstance(v, BV):
+        return True
+    if hasattr(v, "attrs"):
+        return any(_holds_bv(x_) for x_ in v.attrs.values())
+    if isinstance(v, (list, tuple)):
+        return any(_holds_bv(x_) for x_ in v)
+    return False
+
+
 def incremental(M):
     """('ok', cells) | ('bad', obligation, method, text) | ('undecided', text)"""
     key = (MOD, CLS)
@@ -88,6 +98,21 @@ def incremental(M):
             got = bool(got.value())
         if not (got == want and isinstance(got, bool) == isinstance(want, bool)):
             return ("bad", "O5", "is_good", f"after {k} octet(s) is_good is not the test `register == 0xF0B8`")
+        # update() keeps no state besides the register: anything else that changed since construction would make the step depend on the history
+        if k == 3:
+            fresh = A.instantiate(key, [])
+
+            def flat(v):
+                if isinstance(v, BV):
+                    return ("bv",)
+                if hasattr(v, "attrs"):
+                    return tuple(sorted((a_, flat(x_)) for a_, x_ in v.attrs.items() if not callable(x_)))
+                return v if isinstance(v, (int, str, bool, type(None), float)) else ("other",)
+            changed = [a_ for a_ in obj.attrs if flat(obj.attrs[a_]) != flat(fresh.attrs.get(a_)) and not _holds_bv(obj.attrs[a_]) and not _holds_bv(fresh.attrs.get(a_))]
+            # a concrete value that differs after three octets and is not bit-vector valued is history (a counter, a flag)
+            changed = [a_ for a_ in changed if not isinstance(fresh.attrs.get(a_), BV)]
+            if changed:
+                return ("bad", "O2", "update", f"update() keeps state besides the FCS register that changes with the octets fed ({', '.join(sorted(changed))}): the step can depend on the history of the object")
         # a second read gives the same answers (no state consumed by reading)
         r2 = A.apply(fns["checksum"], [obj])
         if r2 != r and not (r2[0] == "value" and same_bv(r2[1], ref ^ BV.const(0xFFFF))):
